@@ -762,10 +762,11 @@ impl<'a, S: Scorer> Wand<'a, S> {
                     return false;
                 };
 
+                // an aligned pair must not push the alignment forward: a later pair may only need to catch up
                 let move_to = if last > next {
                     last
                 } else {
-                    std::cmp::max(last + 1, next - slop)
+                    std::cmp::max(last, next - slop)
                 };
                 max_relative_pos = max_relative_pos.max(Some(move_to));
                 if !(last <= next && next <= last + slop) {
